@@ -205,11 +205,16 @@ theorem nibUniq_has (n : Nat) (b : Compress.Base) (h : Compress.nibUniq n = some
         · cases h; simp only [bne_iff_ne, ne_eq]; show ¬ (n &&& (1 <<< 3) = 0); rename_i h1; simp at h1 ⊢; omega
         · cases h
 
-/-- a `unique` answer of `try_extend_node` is one of the edges reported from that side -/
-theorem tryExtendNode_edge (g : G D) (st : Bool) (join : D → D → Bool) (avail : List Nat) (cur : Nat) (dir : Dir)
-    (nx : Nat) (out : Dir) (h : tryExtendNode g st join avail cur dir = .unique nx out) :
-    ∃ es f, findEdges g cur dir = some es ∧ (nx, out.flip, f) ∈ es := by
-  unfold tryExtendNode at h
+/-- what a `cand` answer of the static part means -/
+theorem staticNode_cand (g : G D) (st : Bool) (join : D → D → Bool) (cur : Nat) (dir : Dir)
+    (y : Nat) (inc : Dir) (bad : Bool) (cnt : Nat) (e : Exts) (h : staticNode g st join cur dir = .cand y inc bad cnt e) :
+    ∃ (nd nn : Node D) (b : Compress.Base) (fl : Bool), g.nodes[cur]? = some nd ∧ g.nodes[y]? = some nn ∧
+      nd.exts.numExtDir dir = 1 ∧ (!st && nd.seq.length == g.K && Compress.isPalindrome (nd.seq.take g.K)) = false ∧
+      nd.exts.uniqueExt dir = some b ∧
+      findLink g (Compress.extend (termKmer g.K nd.seq dir) b dir) dir = some (y, inc, fl) ∧
+      bad = ((!st && Compress.isPalindrome (Compress.extend (termKmer g.K nd.seq dir) b dir)) || !(join nd.data nn.data)) ∧
+      cnt = nn.exts.numExtDir inc ∧ e = nd.exts.singleDir dir := by
+  unfold staticNode at h
   cases hn : g.nodes[cur]? with
   | none => rw [hn] at h; cases h
   | some nd =>
@@ -217,7 +222,8 @@ theorem tryExtendNode_edge (g : G D) (st : Bool) (join : D → D → Bool) (avai
     simp only at h
     split at h
     · cases h
-    · cases hu : nd.exts.uniqueExt dir with
+    · rename_i hcond
+      cases hu : nd.exts.uniqueExt dir with
       | none => rw [hu] at h; cases h
       | some b =>
         rw [hu] at h
@@ -233,35 +239,48 @@ theorem tryExtendNode_edge (g : G D) (st : Bool) (join : D → D → Bool) (avai
           | some nn =>
             rw [hnn] at h
             simp only at h
-            have key : ∀ (c1 c2 : Bool) (cnt : Nat) (e : Exts),
-                (if c1 = true then ExtModeNode.panic else if c2 = true then ExtModeNode.terminal e
-                  else if (cnt == 0) = true then ExtModeNode.panic
-                  else if (cnt == 1) = true then ExtModeNode.unique nextId incoming.flip else ExtModeNode.terminal e) =
-                  ExtModeNode.unique nx out → nx = nextId ∧ out = incoming.flip := by
-              intro c1 c2 cnt e hh
-              cases c1 <;> cases c2 <;> simp only [Bool.false_eq_true, if_false, if_true] at hh
-              · split at hh
-                · cases hh
-                · split at hh
-                  · simp only [ExtModeNode.unique.injEq] at hh; exact ⟨hh.1.symm, hh.2.symm⟩
-                  · cases hh
-              · cases hh
-              · cases hh
-              · cases hh
-            obtain ⟨rfl, rfl⟩ := key _ _ _ _ h
-            refine ⟨_, flip, by unfold findEdges; rw [hn], ?_⟩
-            rw [Dir.flip_flip, List.mem_filterMap]
-            have hb : nd.exts.hasExt dir b.val = true := by
-              rw [Compress.uniqueExt_eq] at hu
-              split at hu
-              · cases hu
-              · have := nibUniq_has _ b hu
-                unfold Compress.nibHas at this
-                unfold Compress.Exts.hasExt
-                simp only [bne_iff_ne, ne_eq] at this
-                simp only [decide_eq_true_eq]
-                omega
-            exact ⟨b, Graph.mem_base4 b, by rw [if_pos hb]; exact hl⟩
+            have key : ∀ (c : Bool) (s1 : StaticN), (if c = true then StaticN.panic else s1) = StaticN.cand y inc bad cnt e → s1 = StaticN.cand y inc bad cnt e := by
+              intro c s1 hh; cases c <;> simp at hh; exact hh
+            have h' := key _ _ h
+            simp only [StaticN.cand.injEq] at h'
+            obtain ⟨rfl, rfl, rfl, rfl, rfl⟩ := h'
+            simp only [Bool.or_eq_true, bne_iff_ne, ne_eq, not_or, Bool.not_eq_true, Decidable.not_not] at hcond
+            exact ⟨nd, nn, b, flip, rfl, hnn, by simpa using hcond.1, hcond.2, hu, hl, rfl, rfl, rfl⟩
+
+/-- a `unique` answer of `try_extend_node` is one of the edges reported from that side -/
+theorem tryExtendNode_edge (g : G D) (st : Bool) (join : D → D → Bool) (avail : List Nat) (cur : Nat) (dir : Dir)
+    (nx : Nat) (out : Dir) (h : tryExtendNode g st join avail cur dir = .unique nx out) :
+    ∃ es f, findEdges g cur dir = some es ∧ (nx, out.flip, f) ∈ es := by
+  unfold tryExtendNode at h
+  cases hs : staticNode g st join cur dir with
+  | panic => rw [hs] at h; cases h
+  | terminal e => rw [hs] at h; cases h
+  | cand y inc bad cnt e =>
+    rw [hs] at h
+    simp only at h
+    obtain ⟨nd, nn, b, fl, hn, _, _, _, hu, hl, _, _, _⟩ := staticNode_cand g st join cur dir y inc bad cnt e hs
+    have hyo : nx = y ∧ out = inc.flip := by
+      split at h
+      · cases h
+      · split at h
+        · cases h
+        · split at h
+          · simp only [ExtModeNode.unique.injEq] at h; exact ⟨h.1.symm, h.2.symm⟩
+          · cases h
+    obtain ⟨rfl, rfl⟩ := hyo
+    refine ⟨_, fl, by unfold findEdges; rw [hn], ?_⟩
+    rw [Dir.flip_flip, List.mem_filterMap]
+    have hb : nd.exts.hasExt dir b.val = true := by
+      rw [Compress.uniqueExt_eq] at hu
+      split at hu
+      · cases hu
+      · have := nibUniq_has _ b hu
+        unfold Compress.nibHas at this
+        unfold Compress.Exts.hasExt
+        simp only [bne_iff_ne, ne_eq] at this
+        simp only [decide_eq_true_eq]
+        omega
+    exact ⟨b, Graph.mem_base4 b, by rw [if_pos hb]; exact hl⟩
 
 /-- entries of a walk, as `sequence_of_path` reads them: each follows an edge out of its predecessor -/
 theorem extendNode_chain (g : G D) (st : Bool) (join : D → D → Bool) (avail : List Nat) (cur : Nat) (dir : Dir)
